@@ -38,6 +38,12 @@ def gen_cases(tier, seed):
                     if n == depth and not any(LETTERS[i] in ('A.save', 'A.resave', 'A.close', 'A.with', 'B.close') for i in h):
                         continue
                     yield {'ro': ro, 'tr': tr, 'p': pi, 'btr': btr, 'h': list(h)}
+                    if n <= 2 and not ro and any(LETTERS[i] in ('A.save', 'A.resave') for i in h):
+                        yield {'ro': ro, 'tr': tr, 'p': pi, 'btr': btr, 'h': list(h), 'cat': '/api/v1'}   # a category that looks like an absolute path
+                        for k in (1, 2, 3, 4):   # the k-th put request of A is rejected by the bucket (the save fails half way)
+                            yield {'ro': ro, 'tr': tr, 'p': pi, 'btr': btr, 'h': list(h), 'fail_put': k}
+        if not ro and tr:
+            yield {'ro': ro, 'tr': tr, 'p': pi, 'btr': False, 'h': [LETTERS.index('A.close')], 'many': 1001}   # more recordings than one listing / delete page
 
 
 def own_roots(prefix):
@@ -54,7 +60,7 @@ def mk(prefix, **kw):
     return S3TapeCassette('bucket', key_prefix=prefix, **kw)
 
 
-def views_ok(objs, label, viols):
+def views_ok(objs, label, viols, cats=('Op',)):
     """At this bucket state every id that any prefix view can list is completely fetchable."""
     saved = fakes3.FAKE.store
     tmp = fakes3.Store()
@@ -64,7 +70,9 @@ def views_ok(objs, label, viols):
         for p in PREFIXES:
             v = mk(p, read_only=True)
             try:
-                ids = list(v.iter_recording_ids('Op'))
+                ids = []
+                for cat_ in sorted(set(cats)):
+                    ids += list(v.iter_recording_ids(cat_))
             except Exception as e:
                 viols.append(viol('crash-point:listing-raised:%s' % type(e).__name__, '%s: listing of prefix %r raised' % (label, p), 'ids', repr(e)))
                 continue
@@ -100,6 +108,22 @@ def run_case(case):
     kp = (prefix + '/') if prefix else ''
     for key in ('unrelated/x', ROOT + 'NOTES.txt', ROOT + kp + 'NOTES.txt', ROOT + kp + 'fullish/x', ROOT + kp + 'metadata_backup/x', 'tape_recorder_recordingsX/full/y'):
         cl.put_object('bucket', key, b'foreign ' + key.encode())
+    cat = case.get('cat', 'Op')
+    if case.get('many'):   # the cassette owns more recordings than S3 returns / deletes per request
+        import zlib
+        now = st.clock()
+        for i in range(case['many']):
+            rid = 'Op/20200101/%032x' % i
+            st.objs[own_roots(prefix)[0] + rid] = (zlib.compress(b'{"k": 1}'), now, {})
+            st.objs[own_roots(prefix)[1] + rid] = (b'{}', now, {})
+    puts = {'n': 0}
+
+    def put_hook(key):
+        if st.actor == 'A':
+            puts['n'] += 1
+            if puts['n'] == case.get('fail_put'):
+                raise IOError('bucket rejects this put by design')
+    st.put_hook = put_hook if case.get('fail_put') else None
     base_log = len(st.log)
     pristine = st.snapshot()
     A = mk(prefix, read_only=case['ro'], transient=case['tr'])
@@ -118,7 +142,7 @@ def run_case(case):
         raised = None
         try:
             if op == 'create':
-                s['cur'] = c.create_new_recording('Op')
+                s['cur'] = c.create_new_recording(cat if actor == 'A' else 'Op')
                 s['cur'].set_data('k', ['new', step])
                 s['cur'].add_metadata({'v': 1})
             elif op in ('save', 'resave'):
@@ -129,7 +153,7 @@ def run_case(case):
                     r.set_data('k', ['again', step])
                     r.add_metadata({'v': 2})
                 else:
-                    r = s['cur'] or _fresh(c, step)
+                    r = s['cur'] or _fresh(c, step, cat if actor == 'A' else 'Op')
                     s['cur'] = None
                 c.save_recording(r)
                 s['saved'].append(r.id)
@@ -153,6 +177,8 @@ def run_case(case):
                     pass
         except AssertionError as e:
             raised = e
+        except IOError as e:
+            raised = e   # the injected bucket failure surfaces to the caller of save: allowed; what matters is the bucket state
         except Exception as e:
             raised = e
             viols.append(viol('call-raised:%s:%s' % (op, type(e).__name__), 'call %s raised something else than the read-only assertion' % LETTERS[li], 'ok / AssertionError', repr(e)))
@@ -183,10 +209,12 @@ def run_case(case):
             elif muts:
                 viols.append(viol('close:mutated', 'closing a %s cassette must not change the bucket' % ('read-only' if ro else 'non-transient'), [], muts))
         # (iii) crash points of a save: after each individual mutation everything discoverable is fetchable
+        if op in ('save', 'resave') and isinstance(raised, IOError):
+            views_ok(st.snapshot(), 'after a save whose put #%s was rejected (%s)' % (case.get('fail_put'), LETTERS[li]), viols, cats=('Op', cat))
         if op in ('save', 'resave') and muts:
             for j in range(l0, len(st.log)):
                 objs_after_j = st.snaps[j + 1] if j + 1 < len(st.snaps) else st.snapshot()
-                views_ok(objs_after_j, 'crash after mutation %d/%d of %s (%s %s)' % (j - l0 + 1, len(muts), LETTERS[li], st.log[j][0], st.log[j][1]), viols)
+                views_ok(objs_after_j, 'crash after mutation %d/%d of %s (%s %s)' % (j - l0 + 1, len(muts), LETTERS[li], st.log[j][0], st.log[j][1]), viols, cats=('Op', cat))
         states.append(repr(sorted(_HEX.sub('U', k) for k in st.objs)))
     uniq = {}
     for v in viols:
@@ -195,8 +223,8 @@ def run_case(case):
                 transitions=len(case['h']), evals=len(case['h']))
 
 
-def _fresh(c, step):
-    r = c.create_new_recording('Op')
+def _fresh(c, step, cat='Op'):
+    r = c.create_new_recording(cat)
     r.set_data('k', ['direct', step])
     r.add_metadata({'v': 0})
     return r
